@@ -467,9 +467,12 @@ func encoderFuncsForValue(fd protoreflect.FieldDescriptor) valueCoderFuncs {
 		case protoreflect.DoubleKind:
 			return coderDoubleSliceValue
 		case protoreflect.StringKind:
-			// We don't have a UTF-8 validating coder for repeated string fields.
-			// Value coders are used for extensions and maps.
-			// Extensions are never proto3, and maps never contain lists.
+			// Value coders are used for extensions and maps; maps never contain
+			// lists, but a proto3 or editions file can declare a repeated string
+			// extension whose elements have to be valid UTF-8.
+			if strs.EnforceUTF8(fd) {
+				return coderStringSliceValueValidateUTF8
+			}
 			return coderStringSliceValue
 		case protoreflect.BytesKind:
 			return coderBytesSliceValue
